@@ -54,6 +54,10 @@ pub enum Call {
     /// yield until a frame has been painted since this call started (someone else must paint it);
     /// time goes by while waiting (the clock is read once per yield)
     AwaitFrame,
+    /// set_style with a plain template (no spinner, no time-dependent key, no custom key), position still 0
+    PlainStyle,
+    /// wait until a frame has been painted since this call began (by the steady-tick thread: nobody else draws)
+    AwaitFirstFrame,
     /// one second goes by (200 clock readings of 5 ms)
     ClockBurn,
     /// reset_eta() (leaves the position alone)
@@ -213,6 +217,11 @@ pub fn programs_for(family: &str, tier: &str) -> Vec<Program> {
                 v.push(Program { hz: false, start_hidden: false, no_len: false, family: "C08", multi: false, ticker: true, share: Share::Clone, threads: vec![vec![Call::Finish, Call::Reset, en, Call::AwaitTick]] });
                 // one failed terminal call during a draw of the ticker does not end the ticker
                 v.push(Program { hz: false, start_hidden: false, no_len: false, family: "C08", multi: false, ticker: false, share: Share::Clone, threads: vec![vec![Call::FaultNext, en, Call::AwaitTick, Call::AwaitNextTick]] });
+                // a fresh bar with a plain template: the ticker paints it although nothing about it has changed yet
+                if en == Call::Enable {
+                    v.push(Program { hz: false, start_hidden: false, no_len: false, family: "C08", multi: false, ticker: false, share: Share::Clone, threads: vec![vec![Call::PlainStyle, en, Call::AwaitFirstFrame]] });
+                    v.push(Program { hz: false, start_hidden: false, no_len: false, family: "C08", multi: true, ticker: false, share: Share::Clone, threads: vec![vec![Call::PlainStyle, en, Call::AwaitFirstFrame]] });
+                }
                 // disable/replace after finish: the old ticker is really gone (after a reset manual ticks draw again)
                 v.push(Program { hz: false, start_hidden: false, no_len: false, family: "C08", multi: false, ticker: false, share: Share::Clone, threads: vec![vec![en, Call::Finish, Call::Disable, Call::Reset, Call::Tick]] });
                 // steady tick enabled while the bar is still hidden; it gets its terminal / its MultiProgress afterwards
@@ -426,6 +435,7 @@ struct Shared {
     ticks_after_finish: AtomicU64,
     /// steady-tick thread ticks seen when the latest enable_steady_tick call started
     enable_mark: AtomicU64,
+    frames_at_enable: AtomicU64,
     /// 1 + terminal calls made when another thread saw is_hidden() == true (0 = never seen)
     hidden_seen_at: AtomicU64,
     /// timed waits allowed to fire in this execution
@@ -493,6 +503,7 @@ fn do_call(c: Call, pb: &ProgressBar, w: &World, sh: &Shared) {
         Call::Msg => pb.set_message("m"),
         Call::Update => pb.update(|s| s.set_pos(3)),
         Call::Enable => {
+            sh.frames_at_enable.store(w.spy.flushes(), Ordering::SeqCst);
             sh.enable_mark.store(sh.ticker_ticks.load(Ordering::SeqCst), Ordering::SeqCst);
             pb.enable_steady_tick(Duration::from_secs(3600))
         }
@@ -535,6 +546,18 @@ fn do_call(c: Call, pb: &ProgressBar, w: &World, sh: &Shared) {
                 spins += 1;
                 if spins > 300 {
                     oracle("staleness: redraw requests of the steady ticker arriving long after the last painted frame are not painted (300 yields, 1.5 s of virtual time)".into());
+                }
+            }
+        }
+        Call::PlainStyle => pb.set_style(ProgressStyle::with_template("{prefix}:{pos}/{len}").unwrap()),
+        Call::AwaitFirstFrame => {
+            let mark = sh.frames_at_enable.load(Ordering::SeqCst);
+            let mut spins = 0;
+            while w.spy.flushes() == mark {
+                thread::yield_now();
+                spins += 1;
+                if spins > 60 {
+                    oracle("ticker: steady tick was enabled on an unfinished bar but no steady-tick thread ever paints it (60 yields; plain template, position still at its initial value)".into());
                 }
             }
         }
@@ -679,6 +702,7 @@ pub fn execute(p: &Program, timeouts: usize, obs: &Obs) {
         violation: Mutex::new(None),
         ticks_after_finish: AtomicU64::new(0),
         enable_mark: AtomicU64::new(0),
+        frames_at_enable: AtomicU64::new(0),
         hidden_seen_at: AtomicU64::new(0),
         timeouts: AtomicU64::new(timeouts as u64),
     });
